@@ -6,6 +6,10 @@ func init() {
 	// ---- redef (C08/C09): the statement's own restrictions — single-input converters,
 	// no subtypes, one type per name.
 	reg("redef", "Redefine: targets of 1-2 parameters over typed T0..Tk and named a:T0, b:T1; <=1-2 supplied inputs; <=2-3 single-input typed converters (+ named variants), cyclic sets included; FilterInput over subsets of types (FilterType/FilterOr/FilterAnd); FilterOutput none/accepts/rejects", func(size int, emit func(Scenario)) {
+		prov := size >= 10 // redefprov: see tiers4.go
+		if prov {
+			size -= 10
+		}
 		nt := 3
 		if size >= 2 {
 			nt = 4
@@ -33,9 +37,11 @@ func init() {
 				// a converter supplied through a generator, and a run-once provider
 				FuncSpec{In: []Label{tl[1]}, Out: []Label{tl[0]}, InForm: FormPositional, OutForm: FormStruct, Gen: true},
 				FuncSpec{In: nil, Out: []Label{tl[2]}, InForm: FormPositional, OutForm: FormStruct, Once: true},
-				// a provider publishing a *named* value
-				FuncSpec{In: nil, Out: []Label{{"a", 0, ""}}, InForm: FormPositional, OutForm: FormStruct},
 			)
+			// a provider publishing a *named* value: its scenarios form the tier redefprov
+			if prov {
+				convs = append(convs, FuncSpec{In: nil, Out: []Label{{"a", 0, ""}}, InForm: FormPositional, OutForm: FormStruct})
+			}
 		}
 		maxConvs, maxParams, maxIn := 2, 1, 1
 		if size >= 1 {
